@@ -230,6 +230,64 @@ theorem posed2_normal_toi (big : K) (b : Ball K) (s : Cuboid2 K) (m : Iso2 K) (r
   · simp only [Ball.castRayAndGetNormal2, Option.map_map]; rfl
   · simp only [Cuboid2.castRayAndGetNormal, Option.map_map]; rfl
 
+/-! ## 2-D ball: the normal (transferred from the 3-D theorem through the embedding `z = 0`) -/
+
+/-- embedding of a 2-D hit -/
+def embHit (h : Hit2 K) : Hit3 K := { toi := h.toi, n := emb3 h.n, fkind := h.fkind, fidx := h.fidx }
+
+/-- **2-D `ray_toi_and_normal_with_ball` = the 3-D function on the embedded problem** (time, inside flag and normal; the
+embedded normal has `z = 0`) -/
+theorem ball2_normal_eq_embed (c : V2 K) (r : K) (ray : Ray2 K) (solid : Bool) :
+    letI := fieldNum K sq
+    (rayToiAndNormalWithBall2 c r ray solid).1 = (rayToiAndNormalWithBall (emb3 c) r (embRay ray) solid).1 ∧
+    (rayToiAndNormalWithBall2 c r ray solid).2.map embHit = (rayToiAndNormalWithBall (emb3 c) r (embRay ray) solid).2 := by
+  simp only [rayToiAndNormalWithBall2, rayToiAndNormalWithBall]
+  rw [← ball2_toi_eq_embed]
+  rcases @rayToiWithBall2 K (fieldNum K sq) c r ray solid with ⟨ins, inter⟩
+  refine ⟨rfl, ?_⟩
+  cases inter with
+  | none => rfl
+  | some t =>
+    simp only [Option.map_some, embHit, Option.some.injEq]
+    cases ins <;>
+      simp only [embRay, emb3, V2.normalize, V3.normalize, V2.sdiv, V3.sdiv, V2.norm, V3.norm, V2.normSq, V3.normSq, V2.dot,
+        V3.dot, V2.add, V3.add, V2.sub, V3.sub, V2.smul, V3.smul, V2.neg, V3.neg, zero_mul, mul_zero, add_zero, sub_self,
+        zero_div, neg_zero, Bool.false_eq_true, if_false, if_true]
+
+/-- **2-D ball normal** (transferred from `ball_normal_spec`): whenever the 2-D `ray_toi_and_normal_with_ball` reports a
+hit that is not the "solid, origin inside, toi = 0" case, the normal is the unit radial vector at the hit point —
+outward for an origin outside, inward for the exit of a non-solid cast — and faces the ray (`n·d ≤ 0`); the time is the one
+of `ray_toi_with_ball`.  `r > 0`, any non-zero direction. -/
+theorem ball2_normal_spec (hs : LawfulSqrt sq) (c : V2 K) (r : K) (ray : Ray2 K) (solid : Bool) :
+    letI := fieldNum K sq
+    0 < r → 0 < ray.d.normSq →
+    ∀ h, (rayToiAndNormalWithBall2 c r ray solid).2 = some h →
+      (rayToiWithBall2 c r ray solid).2 = some h.toi ∧
+      (¬ ((rayToiWithBall2 c r ray solid).1 = true ∧ solid = true) →
+        h.n.smul r = (if (rayToiWithBall2 c r ray solid).1 then ((rayPt2 sq ray h.toi).sub c).neg
+                      else (rayPt2 sq ray h.toi).sub c) ∧
+        h.n.normSq = 1 ∧ h.n.dot ray.d ≤ 0) := by
+  intro hr ha h hh
+  obtain ⟨_, e2⟩ := ball2_normal_eq_embed sq c r ray solid
+  have ha3 : 0 < @V3.normSq K (fieldNum K sq) (embRay ray).d := by
+    simp only [embRay, emb3, V3.normSq, V3.dot, mul_zero, add_zero]; exact ha
+  have h3 : (@rayToiAndNormalWithBall K (fieldNum K sq) (emb3 c) r (embRay ray) solid).2 = some (embHit h) := by
+    rw [← e2, hh]; rfl
+  obtain ⟨s1, _, s3⟩ := ball_normal_spec sq hs (emb3 c) r (embRay ray) solid hr ha3 (embHit h) h3
+  rw [← ball2_toi_eq_embed] at s1 s3
+  refine ⟨s1, fun hn => ?_⟩
+  obtain ⟨n1, n2, n3⟩ := s3 hn
+  refine ⟨?_, ?_, ?_⟩
+  · have hx := congrArg V3.x n1
+    have hy := congrArg V3.y n1
+    revert hx hy
+    cases (@rayToiWithBall2 K (fieldNum K sq) c r ray solid).1 <;>
+      simp only [embHit, emb3, embRay, rayPt, rayPt2, Ray3.pointAt, Ray2.pointAt, V3.smul, V3.add, V3.sub, V3.neg, V2.smul,
+        V2.add, V2.sub, V2.neg, Bool.false_eq_true, if_false, if_true] <;>
+      intro hx hy <;> congr 1
+  · simpa only [embHit, emb3, V3.normSq, V2.normSq, V3.dot, V2.dot, mul_zero, add_zero] using n2
+  · simpa only [embHit, emb3, embRay, V3.dot, V2.dot, mul_zero, add_zero] using n3
+
 /-- non-vacuity (over `ℚ`, `sqrt` not needed for the box): the segment from `(3,0,0)` along `(-1,0,0)` up to `max = 2` meets
 the unit cube (at `t = 2`), up to `max = 1` it does not; hypotheses `0 ≤ he`, `0 ≤ max ≤ big` hold -/
 example : letI := fieldNum ℚ id
